@@ -972,6 +972,25 @@ def covered_methods(kind, table):
     return out
 
 
+def _build_arm(an, seed):
+    from checks import armlib
+    arm, ref = armlib.build(an, seed)
+    add_dynamics(arm, ref)
+    return arm, ref
+
+
+def build_object(d, cid, builder):
+    """Construction of an arm / platform is itself a case (the constructors call kernels).  Returns the object, or None
+    when construction raised in this mode - then only this record exists for the object."""
+    box = {}
+
+    def fn():
+        box["obj"] = builder()
+        return None
+    d.call(cid, fn)
+    return box.get("obj")
+
+
 def run_entries(d):
     from checks import armlib
     P = Pal(d.tier, d.seed)
@@ -993,9 +1012,10 @@ def run_entries(d):
         t0 = time.time()
         if not d.group_wanted("e|arm:%s|" % an):
             continue
-        with armlib.quiet():
-            pristine, ref = armlib.build(an, d.seed)
-            add_dynamics(pristine, ref)
+        built = build_object(d, "e|arm:%s|*|build|-" % an, lambda: _build_arm(an, d.seed))
+        if built is None:           # the constructor raised in this mode: recorded, compare() charges it to every case of the arm
+            continue
+        pristine, ref = built
         for tk, th in theta_palette(ref, d.tier).items():
             x = ArmX(ref, th)
             for name, idx, fn in table:
@@ -1020,8 +1040,9 @@ def run_entries(d):
             t0 = time.time()
             if not d.group_wanted("e|sp:%s@%s|" % (sn, bn)):
                 continue
-            with armlib.quiet():
-                pristine = build_sp(sn, bn)
+            pristine = build_object(d, "e|sp:%s@%s|*|build|-" % (sn, bn), lambda: build_sp(sn, bn))
+            if pristine is None:
+                continue
             for gi, g in enumerate(goals):
                 x = SpX(sn, bn, g, goals[(gi + 1) % len(goals)])
                 for name, idx, fn in stable:
